@@ -1,4 +1,5 @@
 import DracoModel.IO.Obj
+import DracoModel.IO.Decimal
 /-
   DracoModel.IO.ObjText — the executable text-level instance of the OBJ model.
 
@@ -16,100 +17,25 @@ import DracoModel.IO.Obj
 namespace Draco.IO.Obj
 open Draco Draco.IO
 
-/-- digits of `n`, at least `w` of them (zero padded) -/
-def padDigits (w n : Nat) : String :=
-  let s := toString n
-  String.ofList (List.replicate (w - s.length) '0') ++ s
+open Draco.IO.Dec in
+/-- `snprintf(num_buffer_, sizeof(num_buffer_), "%F", val)` with `char num_buffer_[20]`
+    (`Dec.fmtChars`: exact round-half-even 6-decimal expansion, 19 characters at most) -/
+def fmtF (bits : Nat) : String := String.ofList (Dec.fmtChars bits)
 
-/-- round-half-even of `a / 2^k` -/
-def divPow2RoundEven (a k : Nat) : Nat :=
-  let q := a / 2^k
-  let r := a % 2^k
-  let half := 2^k / 2
-  if k = 0 then a
-  else if r > half then q + 1
-  else if r < half then q
-  else if q % 2 = 0 then q else q + 1
+/-- `static_cast<float>(sign < 0 ? -v : v)` as a bit pattern.  NaN: Lean's `toBits` canonicalises
+    NaNs; the C++ keeps the sign: `nan("")` is positive, the x86 default NaN of `0 * inf` is negative. -/
+def f32BitsOfParsed (p : Dec.Parsed Float) : Nat :=
+  if p.mag.isNaN then (if p.nanNeg != p.neg then 0xffc00000 else 0x7fc00000)
+  else (if p.neg then (-p.mag).toFloat32 else p.mag.toFloat32).toBits.toNat
 
-/-- `printf("%F")` of a float32 (promoted to double, exact), without length limit -/
-def fmtFull (bits : Nat) : String :=
-  let sign := (bits / 2^31) % 2
-  let e := (bits / 2^23) % 256
-  let m := bits % 2^23
-  let sg := if sign = 1 then "-" else ""
-  if e = 255 then (if m = 0 then sg ++ "INF" else sg ++ "NAN")
-  else
-    let mant := if e = 0 then m else m + 2^23
-    let ex : Int := (if e = 0 then 1 else e : Nat) - 150    -- value = mant * 2^ex
-    let scaled := if ex ≥ 0 then mant * 2^ex.toNat * 1000000
-                  else divPow2RoundEven (mant * 1000000) (-ex).toNat
-    sg ++ toString (scaled / 1000000) ++ "." ++ padDigits 6 (scaled % 1000000)
-
-/-- `snprintf(num_buffer_, sizeof(num_buffer_), "%F", val)` with `char num_buffer_[20]` -/
-def fmtF (bits : Nat) : String := String.ofList ((fmtFull bits).toList.take 19)
-
-def isDigitC (c : Char) : Bool := '0' ≤ c && c ≤ '9'
-
-/-- `parser::ParseUnsignedInt` (uint32 wrap-around); `none` without digits -/
-def parseUInt (cs : List Char) : Option (Nat × List Char) :=
-  let ds := cs.takeWhile isDigitC
-  if ds.isEmpty then none
-  else some (ds.foldl (fun v c => (v * 10 + (c.toNat - 48)) % 2^32) 0, cs.dropWhile isDigitC)
-
-/-- `parser::ParseSignedInt`: value as int32 -/
-def parseSInt (cs : List Char) : Option (Int × List Char) :=
-  let (neg, r) := match cs with
-    | '-' :: r => (true, r)
-    | '+' :: r => (false, r)
-    | _ => (false, cs)
-  match parseUInt r with
-  | none => none
-  | some (v, rest) => some (toSigned 32 (if neg then (2^32 - v) % 2^32 else v), rest)
-
-/-- integer-part loop: `v *= 10.0; v += (ch - '0')` -/
-def intLoop : List Char → Float → Bool → Float × Bool × List Char
-  | c :: r, v, hd => if isDigitC c then intLoop r (v * 10.0 + (c.toNat - 48).toFloat) true else (v, hd, c :: r)
-  | [], v, hd => (v, hd, [])
-
-/-- fraction loop: `fraction *= 0.1; v += (ch - '0') * fraction` -/
-def fracLoop : List Char → Float → Float → Bool → Float × Bool × List Char
-  | c :: r, v, fr, hd =>
-    if isDigitC c then
-      let fr' := fr * 0.1
-      fracLoop r (v + (c.toNat - 48).toFloat * fr') fr' true
-    else (v, hd, c :: r)
-  | [], v, _, hd => (v, hd, [])
-
-/-- `parser::ParseFloat` on the characters of one token: float32 bit pattern and unread rest -/
+/-- `parser::ParseFloat` on the characters of one token: float32 bit pattern and unread rest
+    (`Dec.parseCore` with the machine's binary64 arithmetic) -/
 def parseFloat (cs : List Char) : Option (Nat × List Char) :=
-  if cs.isEmpty then none else
-  let (neg, r0) := match cs with
-    | '-' :: r => (true, r)
-    | '+' :: r => (false, r)
-    | _ => (false, cs)
-  let (v1, hd1, r1) := intLoop r0 0.0 false
-  let (v2, hd2, r2) := match r1 with
-    | '.' :: r => fracLoop r v1 1.0 hd1
-    | _ => (v1, hd1, r1)
-  -- `nanNeg`: sign bit of `v` when it is a NaN (Lean's `toBits` canonicalises NaNs; the C++ keeps
-  -- the sign: `nan("")` is positive, the x86 default NaN of `0 * inf` is negative)
-  let fin (v : Float) (nanNeg : Bool) (rest : List Char) : Option (Nat × List Char) :=
-    if v.isNaN then some (if nanNeg != neg then 0xffc00000 else 0x7fc00000, rest)
-    else some ((if neg then (-v).toFloat32 else v.toFloat32).toBits.toNat, rest)
-  if !hd2 then
-    -- `ParseString`: the rest of the token
-    let text := String.ofList (r2.takeWhile (fun c => !c.isWhitespace))
-    let rest := r2.dropWhile (fun c => !c.isWhitespace)
-    if text == "inf" || text == "Inf" then fin (1.0 / 0.0) false rest
-    else if text == "nan" || text == "NaN" then fin (0.0 / 0.0) false rest
-    else none
-  else
-    match r2 with
-    | 'e' :: r | 'E' :: r =>
-      match parseSInt r with
-      | none => none
-      | some (ex, rest) => fin (v2 * Float.pow 10.0 (Float.ofInt ex)) true rest
-    | _ => fin v2 false r2
+  (Dec.parseCore (D := Float) cs).map (fun p => (f32BitsOfParsed p, p.rest))
+
+def isDigitC := Dec.isDigitC
+def parseUInt := Dec.parseUInt
+def parseSInt := Dec.parseSInt
 
 /-- the text-level number codec of the C++ -/
 def f32Codec : NumCodec String where
